@@ -10,11 +10,15 @@ PID = "C09"
 GRID = 60
 
 
-def code_distribution(k, p, nmax):
+class Misaligned(Exception):
+    pass
+
+
+def code_distribution(k, p, nmax, conv=int, positional=False):
     """exact law of the real class after every arrival: enumerate its draws, merge equal contents"""
     pf = None if p is None else float(p)
     random.seed(0)
-    s0 = GS.make("geometric", k, True, pf)
+    s0 = GS.make("geometric", k, True, pf, conv=conv, positional=positional)
     # a second live reservoir of the same class, still filling (consumes no draws): objects must not share state
     cur = {(): (s0, F(1))}
     out = {}
@@ -30,7 +34,7 @@ def code_distribution(k, p, nmax):
             for (pw, s2, script) in dist.enumerate_call(lambda st=st: copy.deepcopy(st), call, grid=GRID):
                 sx, sy = GS.project(s2)
                 if sy != [100 + t for t in sx]:
-                    raise AssertionError("misaligned targets during enumeration (C07)")
+                    raise Misaligned("after %d arrivals: instances %s, targets %s" % (n, sx, sy))
                 k2 = tuple(sx)
                 a = new.setdefault(k2, [s2, F(0)])
                 a[1] += w * pw
@@ -59,9 +63,22 @@ def run(tier, seed):
     ncmp = 0
     for p in sorted({pp for (_, pp) in want}):
         pq = F(*p)
-        variants = [pq] + ([None] if pq == F(1, 2) else [])
-        for pv in variants:
-            cd = code_distribution(2, pv, 6)
+        # every p once with keyword arguments and a Python int size, once with the arguments passed by position (in the
+        # documented order size, constant_probability, store_targets) and the size as a NumPy integer scalar
+        import numpy as np
+        variants = [(pq, int, False), (pq, [np.int64, np.int8, np.uint8, np.int32][pq.numerator % 4], True)] \
+            + ([(None, int, False), (None, np.int16, True)] if pq == F(1, 2) else [])
+        for (pv, conv, positional) in variants:
+            where = "p=%s%s" % ("default" if pv is None else pv, " positional arguments, size as %s" % conv.__name__ if positional else "")
+            try:
+                cd = code_distribution(2, pv, 6, conv, positional)
+            except Misaligned as e:
+                ctx.violation("dist.content_is_observed_pairs", where, "a reachable content of GeometricReservoirStorage(size=2, "
+                              "store_targets=True) is not a set of observed (instance, target) pairs: %s" % e, {"k": 2, "p": str(pv)})
+                continue
+            except Exception as e:
+                ctx.violation("dist.update_raises", where, "%s: %s" % (type(e).__name__, str(e)[:200]), {"k": 2, "p": str(pv)})
+                continue
             for n in range(1, 7):
                 w = want[(n, p)]
                 ncmp += 1
@@ -69,7 +86,7 @@ def run(tier, seed):
                 if cd[n] != w:
                     diff = {str(kk): (str(cd[n].get(kk, 0)), str(w.get(kk, 0))) for kk in set(cd[n]) | set(w)
                             if cd[n].get(kk, 0) != w.get(kk, 0)}
-                    ctx.violation("dist.geometric_law", "p=%s" % ("default" if pv is None else pv),
+                    ctx.violation("dist.geometric_law", "p=%s%s" % ("default" if pv is None else pv, " positional arguments, size as %s" % conv.__name__ if positional else ""),
                                   "after %d arrivals the exact distribution of GeometricReservoirStorage(size=2, p=%s) "
                                   "differs from the specification's (content: (code, spec)): %s" % (n, pv, dict(list(diff.items())[:6])),
                                   {"k": 2, "p": str(pv), "n": n})
@@ -90,7 +107,7 @@ def run(tier, seed):
             cnt = [0] * (n + 1)
             random.seed(rng.randrange(2 ** 31))
             for _ in range(M):
-                st = GS.make("geometric", k, False, p)
+                st = GS.make("geometric", k, False, p, positional=(_ % 2 == 1))
                 for t in range(1, n + 1):
                     st.update({"id": t})
                 for x in st.get_data()[0]:
